@@ -114,12 +114,14 @@ proof fn lemma_le16_of_val(s: Seq<u8>)
 }
 
 /// C05 (length): the header parsed from a stream serialises to exactly as many octets as were consumed
+#[verifier::spinoff_prover]
 pub proof fn lemma_imghdr_parse_len(h: ImageHeader, hin: Seq<u8>, hrest: Seq<u8>)
     requires imghdr_parse_post(h, hin, hrest)
     ensures hin.len() == imghdr_wire(h).len() + hrest.len(), imghdr_fits(h), imghdr_wire(h).len() >= 3
 {
 }
 /// C05 (identical octets): a header in the defined form is the wire form of the value parsed from it
+#[verifier::spinoff_prover]
 pub proof fn lemma_imghdr_parse_canonical(h: ImageHeader, hin: Seq<u8>, hrest: Seq<u8>)
     requires imghdr_parse_post(h, hin, hrest), imghdr_found_canonical(hin)
     ensures hin == imghdr_wire(h) + hrest
@@ -137,6 +139,7 @@ pub proof fn lemma_imghdr_parse_canonical(h: ImageHeader, hin: Seq<u8>, hrest: S
     }
 }
 /// C05: parse(serialise(h) ++ t) == h for every canonical header value, leaving t
+#[verifier::spinoff_prover]
 pub proof fn lemma_imghdr_round_trip(h: ImageHeader, t: Seq<u8>, h2: ImageHeader, hrest: Seq<u8>)
     requires imghdr_canon(h), imghdr_parse_post(h2, imghdr_wire(h) + t, hrest)
     ensures imghdr_eq(h2, h), hrest == t
